@@ -52,7 +52,15 @@ Tie to /repo, every run:
      was registered before its `@import`: `c05.front` (Lean `doLoads` / `parseOne`, theorems `parseOne_finish_order`,
      `front_registry_is_regUpTo` of C16) on the files as written vs whether the real parser accepts the dependant; layouts whose order is
      wrong (the imported file uses a type that is pulled in only after it) have to be refused in both builds.
-  S  specification on the implementation's observations: every `@extern` directive loaded the export, not a decoy
+  K8 exporting programs spread over several IDL files (`gen_multi_exporter_case`, `EXP_LAYOUTS`): import chains of two to four files, trees, diamonds,
+     files shared by two importers (reached first directly / first two imports deep), files in nested directories; every file declares exported
+     types and refers to types of the files it imports, the dependant uses the types of every file. The named types of the program are read off
+     its files by the model of the front end (`c13.declared`: Lean `ExportSet.declared` = `progDecls` of `programInOrder`, the files reachable from
+     the root by @import in finish order; theorems `declared_of_reachable_file`, `declaredOf_mem`, `progFilesOf_mem`: every declaration of every
+     reachable file, at whatever import depth) — asked for EVERY exporter of every stream — and compared with the documents the yaml target wrote
+     (set; order of the documents of an `out_file`) and with what the generator of the case wrote into the files.
+  S  specification on the implementation's observations: every named type of the exporting program — declared in the root file or any number of
+     imports below it — has an exported document (`yaml:not-exported:declared-in-imported-file` / `…-in-root-file`); every `@extern` directive loaded the export, not a decoy
      (`extern:wrong-file:<form>`); every exported declaration is registered under its qualified name
      by the real loader (`key:<Kind>`), `c13.spec` compares every applicable read through the really loaded type with the read
      through the real local declaration (names the attribute), plus the file identity of K2.
@@ -100,6 +108,9 @@ THEOREMS = [
     "Pydjinni.C13.round_history_free",
     "Pydjinni.C13.runRounds_history_free",
     "Pydjinni.C13.reexport_registered",
+    "Pydjinni.C13.declaredOf_mem",
+    "Pydjinni.C13.progFilesOf_mem",
+    "Pydjinni.C13.declared_of_reachable_file",
 ]
 LEVEL = "proof"
 TRUSTED = (
@@ -760,6 +771,112 @@ def gen_alphabet_case(r: random.Random, i: int) -> dict:
 
 
 # ---------------------------------------------------------------------------------------------------------
+# exporting programs spread over several IDL files: import chains, trees, diamonds
+# ---------------------------------------------------------------------------------------------------------
+
+# The *exporting* program is a root file and the files it imports, directly or through other files. Every file declares named types;
+# "every named type of an accepted program" = the declarations of every file reachable from the root by `@import` (Lean `programInOrder`
+# / `progDecls`, op `c13.declared`), whatever the depth at which a file is first reached. A layout is the import graph:
+# file number -> the files it imports, in textual order (file 0 is the root); `dirs`: the files stand in nested directories and the
+# literals are relative to the importing file.
+EXP_LAYOUTS = [
+    ("chain-3", {0: [1], 1: [2]}, False),
+    ("diamond", {0: [1, 2], 1: [3], 2: [3]}, False),
+    ("tree", {0: [1, 2], 1: [3, 4], 2: [5]}, False),
+    ("chain-4-dirs", {0: [1], 1: [2], 2: [3]}, True),
+    ("shared-deep-first", {0: [1, 2], 1: [2]}, False),      # the root's own `@import` of file 2 finds it already imported (two imports deep)
+    ("shared-direct-first", {0: [2, 1], 1: [2]}, False),
+    ("fan", {0: [1, 2, 3]}, False),
+    ("chain-4", {0: [1], 1: [2], 2: [3]}, False),
+    ("diamond-deep", {0: [1, 2], 1: [3], 2: [3], 3: [4]}, True),
+    ("chain-2", {0: [1]}, False),
+]
+
+
+def exp_file_names(graph: dict, dirs: bool) -> dict:
+    """file number -> path of the file relative to the root file's directory"""
+    n = 1 + max([0] + [x for v in graph.values() for x in v])
+    if not dirs:
+        return {k: "exp.djinni" if k == 0 else f"lib{k}.djinni" for k in range(n)}
+    # a file stands one directory below the file that imports it first (depth-first, textual order)
+    out = {0: "exp.djinni"}
+
+    def walk(k):
+        for x in graph.get(k, ()):
+            if x not in out:
+                out[x] = str(Path(out[k]).parent / f"d{x}" / f"lib{x}.djinni")
+                walk(x)
+    walk(0)
+    return out
+
+
+def import_depths(graph: dict) -> dict:
+    """file number -> number of imports between the root and the file on the path the parser takes first (depth-first, textual order)"""
+    out = {0: 0}
+
+    def walk(k):
+        for x in graph.get(k, ()):
+            if x not in out:
+                out[x] = out[k] + 1
+                walk(x)
+    walk(0)
+    return out
+
+
+def gen_multi_exporter_case(r: random.Random, i: int) -> dict:
+    """a closed round trip whose *exporting* program is spread over a root file and the files it imports (chains, trees, diamonds);
+    every file declares exported types, a file refers to types of the files it imports, the dependant uses the types of every file"""
+    import os
+    lname, graph, dirs = EXP_LAYOUTS[i % len(EXP_LAYOUTS)]
+    paths = exp_file_names(graph, dirs)
+    nfiles = len(paths)
+    j = i // len(EXP_LAYOUTS)
+    first = SAFE[(i + j) % len(SAFE)]
+    slots = [first] + r.sample([s for s in SAFE if s != first], k=nfiles - 1 + r.choice([0, 1]))
+    pool = CONFIGS + ALPHABETS
+    cfg_name, cfg = pool[(i + j) % len(pool)]
+    mode = "out_file" if (i + j // 2) % 2 else "per_type"
+    # (names of the slot / lexical families are accepted as type names under every configuration of the pool, and so are these namespaces)
+    naming = "lexical" if cfg_name.startswith("alphabet") or (i // 2) % 2 == 1 else "slots"
+    names = draw_names(r, slots, naming, allow_same_name=(mode == "out_file"), namespaces=LEX_NAMESPACES if naming == "lexical" else SEQ_NAMESPACES, p_ns=0.5)
+    # one slot per file, the others anywhere
+    of_file = {k: [slots[k]] for k in range(nfiles)}
+    for s in slots[nfiles:]:
+        of_file[r.randrange(nfiles)].append(s)
+    refs = {d["slot"]: d for d in decl_refs(slots, names)}
+    files, declared, flat = {}, {}, []
+    depth = import_depths(graph)
+    for k in range(nfiles):
+        here = Path(paths[k]).parent
+        head = "".join(f'@import "{os.path.relpath(paths[x], here)}"\n' for x in graph.get(k, ()))
+        body = exporter_text(of_file[k], names)
+        for s in of_file[k]:
+            declared[refs[s]["ref"]] = {"file": paths[k], "import_depth": depth[k]}
+        # a record over the types of the imported files: the exported program is connected, not only its import graph
+        if graph.get(k):
+            fields = "".join(f"    l{x}: list<{refs[of_file[x][0]]['ref']}>;\n" for x in graph[k])
+            body += f"lk{k} = record {{\n{fields}}}\n"
+            declared[f"lk{k}"] = {"file": paths[k], "import_depth": depth[k]}
+        files[paths[k]] = head + body
+        flat.append((k, body))
+    # the same declarations in one file, in the order in which the files are finished (imported files first)
+    finished = []
+
+    def finish(k):
+        for x in graph.get(k, ()):
+            if x not in finished:
+                finish(x)
+        if k not in finished:
+            finished.append(k)
+    finish(0)
+    flat = [dict(flat)[k] for k in finished]
+    order = sorted(slots, key=SAFE.index)
+    return {"exp": "".join(flat), "dep": dependant(r, [refs[s] for s in order], rot=i, light=nfiles > 4), "config": cfg, "config_name": cfg_name, "mode": mode,
+            "shape": "multi-file-exporter", "naming": naming, "slots": order, "exp_slots": order, "rot": i, "names": {k: list(v) for k, v in names.items()},
+            "exp_files": files, "exp_layout": lname, "declared": declared}
+
+
+# ---------------------------------------------------------------------------------------------------------
 # dependants spread over several IDL files: `@extern` and `@import` directives interleaved
 # ---------------------------------------------------------------------------------------------------------
 
@@ -1163,7 +1280,8 @@ def round_trips(ctx, cases, used, spec, minimise=True, sequences=(), alone=False
         else:
             jobs.append({"files": {"main.djinni": c["exp"] + c["dep"]}, "root": "main.djinni", "targets": TARGETS, "config": cfg})
         yopt = {"yaml": {"out_file": "all.yaml"}} if c["mode"] == "out_file" else {}
-        jobs.append({"files": {"exp.djinni": c["exp"]}, "root": "exp.djinni", "targets": ["yaml"], "config": genrun.deep_merge(cfg, yopt),
+        # (an exporting program of several files: the root file `exp.djinni` and what it imports)
+        jobs.append({"files": c.get("exp_files") or {"exp.djinni": c["exp"]}, "root": "exp.djinni", "targets": ["yaml"], "config": genrun.deep_merge(cfg, yopt),
                      "hook": "props.c13:hook_export", "node_attrs": node_attrs})
         if lay:
             jobs.append({"files": {"exp.djinni": lay["decoy"]}, "root": "exp.djinni", "targets": ["yaml"], "config": genrun.deep_merge(lay["decoy_config"], yopt)})
@@ -1248,6 +1366,8 @@ def round_trips(ctx, cases, used, spec, minimise=True, sequences=(), alone=False
             inp["layout"] = c["layout"]
         if c.get("split"):
             inp["split"], inp["yaml_names"] = c["split"], c["yaml_names"]
+        if c.get("exp_files"):
+            inp["exporter_files"], inp["exporter_layout"] = c["exp_files"], c.get("exp_layout")
         # 1. every exported document validates against the published model; per-type files hold one document each
         docs, doc_list = {}, []
         for n in sorted(c["yamls"]):
@@ -1286,6 +1406,26 @@ def round_trips(ctx, cases, used, spec, minimise=True, sequences=(), alone=False
                 continue
             rep(c, "yaml:document-set", "the yaml target did not write exactly one document per named declaration",
                        {"input": inp, "documents": sorted(docs), "declarations": sorted(decls)})
+        # every named type of the exporting program has a document, wherever it is declared: in the root file or in a file that is
+        # reached through one, two, … imports. What the program declares is read off its files by the model of the front end (Lean
+        # `programInOrder` / `progDecls`: the files reachable from the root by @import, in the order in which they are finished) and is
+        # known to the generator of the case (`declared`) — not taken from what the parser handed to the generators.
+        xfiles = c.get("exp_files") or {"exp.djinni": c["exp"]}
+        reqs.append({"op": "c13.declared", **{k_: v_ for k_, v_ in front.front_request({"/w/" + f: t for f, t in xfiles.items()}, "/w/exp.djinni").items() if k_ != "op"}})
+        metas.append(("declared", c, None, None, {"docs": [".".join(list(d.get("namespace", [])) + [str(d["name"])]) for d in doc_list], "inp": inp}))
+        if c.get("declared"):
+            ctx.count(key=("exporter-files", c.get("exp_layout"), c["mode"], c["config_name"]), nontrivial=True,
+                      sample={"layout": c.get("exp_layout"), "files": sorted(xfiles), "declared": {k_: v_["import_depth"] for k_, v_ in c["declared"].items()}})
+            ctx.stat("exporter_layout_" + str(c.get("exp_layout")))
+            for v_ in c["declared"].values():
+                ctx.stat(f"exported_declarations_at_import_depth_{v_['import_depth']}")
+            lost = sorted(k_ for k_ in c["declared"] if k_ not in docs)
+            if lost:
+                w = c["declared"][lost[0]]
+                rep(c, "yaml:not-exported:" + ("declared-in-root-file" if w["import_depth"] == 0 else "declared-in-imported-file"),
+                    f"the exporting program is accepted, but the yaml target wrote no document for named types it declares: {lost[0]} is declared in {w['file']} "
+                    f"({w['import_depth']} import(s) below the root file)",
+                    {"input": inp, "not_exported": {k_: c["declared"][k_] for k_ in lost}, "documents": sorted(docs), "export_mode": c["mode"]})
         for key, d in decls.items():
             name = key.split(".")[-1]
             family = "yaml-word" if name.lower() in YAML_LOWER else "keywordish" if name in KEYWORDISH else "ordinary"
@@ -1443,6 +1583,26 @@ def round_trips(ctx, cases, used, spec, minimise=True, sequences=(), alone=False
                 breaks.append({"what": "c05.front (the directives of every file in source order) vs whether the parser accepts the dependant that is spread over several files",
                                "layout": key, "model": list(mo)[:3], "impl": {k_: other.get(k_) for k_ in ("ok", "stage", "cls", "msg")}, "input": {**inp, "split": c["split"]}})
             continue
+        if kind == "declared":
+            ctx.count(n=1)
+            inp.pop("type")
+            if a.get("declared") is None:
+                breaks.append({"what": "c13.declared: the model of the front end cannot read the exporting program", "model": a, "input": inp})
+                continue
+            mkeys = [x["key"] for x in a["declared"]]
+            if c.get("declared") is not None and sorted(mkeys) != sorted(c["declared"]):
+                breaks.append({"what": "c13.declared (progDecls of programInOrder) vs the declarations the generator of the case wrote into the files",
+                               "model": sorted(mkeys), "generator": sorted(c["declared"]), "input": inp})
+            lost = [x for x in a["declared"] if x["key"] not in other["docs"]]
+            if lost and not any(k_.startswith("yaml:") for k_ in c.get("_reported", ())) and not any(x[0] is c and x[1].startswith("yaml:") for x in deferred):
+                root = lost[0]["file"] == "/w/exp.djinni"
+                rep(c, "yaml:not-exported:" + ("declared-in-root-file" if root else "declared-in-imported-file"),
+                    f"the yaml target wrote no document for a named type of the exporting program: {lost[0]['key']}, declared in {lost[0]['file']}",
+                    {"input": other["inp"], "not_exported": lost, "documents": sorted(other["docs"]), "export_mode": c["mode"]})
+            elif not lost and c["mode"] == "out_file" and sorted(mkeys) == sorted(other["docs"]) and mkeys != other["docs"]:
+                # the documents of an `out_file` stand in the order in which the declarations are registered: imported files first
+                breaks.append({"what": "c13.declared (finish order of the files) vs the order of the documents in the out_file", "model": mkeys, "impl": other["docs"], "input": inp})
+            continue
         if kind == "locate":
             ctx.count(n=1)
             if a.get("located") != other:
@@ -1565,6 +1725,10 @@ def run(ctx):
         "split dependants: layouts " + ", ".join(l for l, _ in SPLIT_LAYOUTS) + " (E = @extern directives, I(x) = @import of a file that uses the external types (u), uses none (p), has the "
         "@extern directives itself (E u), imports such a file (I(u))); one or two exported slots, light dependants; the all-local reference imports one IDL file per exported YAML file at the "
         "place of its @extern; the last two layouts have the wrong order and must be refused by both builds",
+        "exporting programs of several files: import graphs " + ", ".join(n for n, _, _ in EXP_LAYOUTS) + " (2-6 files, the deepest file 1-3 imports below the root, files shared by two importers, "
+        "files in nested directories with literals relative to the importing file); every file declares one or two exported slots, every importing file a record over types of the files it "
+        "imports; the dependant uses the slots of every file; the all-local reference declares everything in one file; configurations from the four + the three alphabet configurations, "
+        "both export modes",
         "re-export histories: two exported slots, light dependants (a record, a +cpp and a +java+objc+cppcli interface over every wrapper), configurations from the four + the three "
         "alphabet configurations, names of the slot / lexical families, 2 rounds (3 in every fourth history); edits " + ", ".join(EDITS) + " in rotation; every round cleans the "
         "output directories it writes (`clean=True`), the dependent program names the exported files by the names the yaml target is known to give them (<name>.yaml / all.yaml); "
@@ -1589,6 +1753,9 @@ def run(ctx):
     for i in range(ctx.n(len(SPLIT_LAYOUTS), 12 * len(SPLIT_LAYOUTS))):
         k = i + ctx.seed * len(SPLIT_LAYOUTS)
         cases.append(gen_split_case(random.Random(f"{ctx.seed}/c13/split/{i}"), k))
+    for i in range(ctx.n(len(EXP_LAYOUTS), 10 * len(EXP_LAYOUTS))):
+        k = i + ctx.seed * len(EXP_LAYOUTS)
+        cases.append(gen_multi_exporter_case(random.Random(f"{ctx.seed}/c13/exporter-files/{i}"), k))
     sequences += [gen_sequence(random.Random(f"{ctx.seed}/c13/history/{i}"), i) for i in range(ctx.n(12, 96))]
     breaks = round_trips(ctx, cases, used, spec, sequences=sequences)
     breaks += pattern_correspondence(ctx, spec)
@@ -1633,6 +1800,10 @@ def replay(ctx, body):
         case["layout"] = inp["layout"]
     if inp.get("split"):
         case["split"], case["yaml_names"], case["shape"] = inp["split"], inp["yaml_names"], "split"
+    if inp.get("exporter_files"):
+        case["exp_files"], case["exp_layout"], case["shape"] = inp["exporter_files"], inp.get("exporter_layout"), "multi-file-exporter"
+        if body.get("not_exported") and isinstance(body["not_exported"], dict):
+            case["declared"] = dict(body["not_exported"])
     if inp.get("history"):
         h = inp["history"]
         round_trips(ctx, [], used, spec, sequences=[sequence_of_rounds(h["rounds"], case["mode"], {"seq": 0, "form": h.get("form", "absolute"), "share_api": bool(h.get("share_api"))})])
